@@ -597,7 +597,22 @@ func init() {
 	addEntry(c09Entry{name: "tensor.BackPropagate",
 		gen: func(t *rapid.T, c *C09Case) {
 			c.T = []TArg{drawOther(t, drawRecv(t))}
-			c.K = []int{rapid.IntRange(0, 2).Draw(t, "bpkind")}
+			c.K = []int{rapid.IntRange(0, 4).Draw(t, "bpkind")}
+			if c.K[0] >= 3 && c.T[0].Kind == 0 {
+				// a tracked tensor with size-1 dims, expanded (explicitly or inside Mul) before BackPropagate
+				s := c.T[0].Shape
+				dst := ref.Cp(s)
+				for i := range s {
+					if rapid.Bool().Draw(t, "one") {
+						s[i] = 1
+						dst[i] = rapid.IntRange(1, 3).Draw(t, "exp")
+					}
+				}
+				if rapid.Bool().Draw(t, "lead") && len(dst) < 5 {
+					dst = append([]int{2}, dst...)
+				}
+				c.Dims = dst
+			}
 		},
 		call: func(c C09Case) outcome {
 			x := c.t(0).build()
@@ -608,6 +623,19 @@ func init() {
 				case 2:
 					x.ResetGradContext(true)
 					x = x.Sin()
+				case 3, 4:
+					x.ResetGradContext(true)
+					var y tensor.Tensor
+					var err error
+					if c.k(0) == 3 {
+						y, err = x.Broadcast(c.dims())
+					} else {
+						y, err = x.Mul(mkTensor(c.Dims, false))
+					}
+					if err != nil {
+						panic("harness: expansion rejected: " + err.Error())
+					}
+					x = y
 				}
 			}
 			return outcome{hasErr: true, err: tensor.BackPropagate(x), zero: true}
